@@ -1,4 +1,122 @@
-(* placeholder until SecureProofs.v lands *)
-From Coercion.Secure Require Import GoVal SecureModel.
-Theorem c17_placeholder : True. Proof. exact I. Qed.
-Print Assumptions c17_placeholder.
+(* C17 - Secure-tagged values never leak through clones or HTML reports; the registry refuses secret-looking
+   untagged fields.  Statements only; proofs in SecureProofs.v, SurfacesProofs.v, RegistryProofs.v.
+
+   Vocabulary (GoVal.v, SecureSpec.v, Registry.v, Surfaces.v):
+     gv          Go values: strings, numbers, bools, time.Time, structs (fields with name, exportedness, coerce tag),
+                 pointers, slices, maps, interfaces (nil or not), arrays;  wf v = the Go invariant that an interface
+                 never directly holds an interface.
+     secure      the model of clone.Secure (SecureModel.v, function by function, with the code's panic sites).
+     sec_at v x  x is the value of an exported field tagged coerce:"secure" reachable in v through exported untagged
+                 struct fields, pointers, slices, map values and interface values.  NOT through arrays and NOT through
+                 unexported fields: the two documented exclusions of clone.Secure.
+     hidden x    x = "[secret hidden]" or x is the zero value of its type.
+     erase v     v with the values of secure-tagged and of unexported fields blanked; equal erasures = same shape, same
+                 field metadata, same map keys, same nil-ness, same untagged data (whole arrays included).
+     scrub       the one-screen functional specification of Secure (SecureSpec.v). *)
+From Coercion.Secure Require Import GoVal SecureModel SecureSpec SecureProofs Registry RegistryProofs Surfaces SurfacesProofs.
+
+(* clone.Secure on EVERY value (any depth, any nesting of the constructors, any tags, nil anywhere, time.Time anywhere):
+   never a panic (none of the code's panic statements / reflect misuse is reachable) and never out of recursion levels;
+   on a pointer to a struct (or a nil pointer) the result has no exposed secure-tagged field that is not hidden and is
+   otherwise unchanged; on anything else Secure returns its error and changes nothing. *)
+Theorem c17_scrubbed : forall v : gv, wf v = true ->
+  match secure v with
+  | OOk v' => (forall x, sec_at v' x -> hidden x) /\ erase v' = erase v /\ (struct_ptr v = true \/ v = VPtr None)
+  | OErr => struct_ptr v = false /\ v <> VPtr None
+  | OPanic _ | OFuel => False
+  end.
+Proof. exact secure_scrubbed. Qed.
+Print Assumptions c17_scrubbed.
+
+(* ... in fact the dispatch computes exactly the specification (a complete functional description: this is why any
+   disagreement between the implementation and the model is a violation with that input) *)
+Theorem c17_secure_is_scrub : forall v : gv, wf v = true ->
+  secure v = match v with
+             | VPtr None => OOk v
+             | _ => if struct_ptr v then OOk (scrub false v) else OErr
+             end.
+Proof. exact secure_computes_scrub. Qed.
+Print Assumptions c17_secure_is_scrub.
+
+(* the boolean monitor evaluated on the implementation's outputs IS the declarative statement *)
+Theorem c17_monitor : forall v : gv, scrubbedb v = true <-> (forall x, sec_at v x -> hidden x).
+Proof. exact scrubbedb_spec. Qed.
+Print Assumptions c17_monitor.
+
+(* The five clone entry points without WithKeepSecrets (Plan, Block, Checks, Sequence, Action; with or without
+   WithKeepState), for every plan skeleton whose payloads are well-formed: the result v' exposes no secure-tagged value
+   anywhere; its requests are, one for one and in order, the original's requests with the secure-tagged fields hidden
+   and nothing else changed; its attempt responses likewise when state is kept, and there are none otherwise.
+   deepcopy (brunoga/deep MustCopy) is a premise: value-equal copy.  The original is an immutable value of the model:
+   that the Go original is untouched is observed by the correspondence check (and is C18's c18_no_sharing). *)
+Theorem c17_clone_surfaces :
+  forall deepcopy : gv -> gv, (forall v, deepcopy v = v) ->
+  forall keep_state : bool,
+    (forall p, plan_wf p = true ->
+       exists v', entry_plan deepcopy false keep_state p = OOk v' /\
+         (forall x, sec_at v' x -> hidden x) /\
+         Forall2 (fun r' r => (forall x, sec_at r' x -> hidden x) /\ erase r' = erase r)
+                 (collect nReq v') (plan_map action_reqs p) /\
+         Forall2 (fun r' r => (forall x, sec_at r' x -> hidden x) /\ erase r' = erase r)
+                 (collect nResp v') (if keep_state then plan_map action_resps p else [])) /\
+    (forall b, block_wf b = true ->
+       exists v', entry_block deepcopy false keep_state b = OOk v' /\
+         (forall x, sec_at v' x -> hidden x) /\
+         Forall2 (fun r' r => (forall x, sec_at r' x -> hidden x) /\ erase r' = erase r)
+                 (collect nReq v') (block_map action_reqs b) /\
+         Forall2 (fun r' r => (forall x, sec_at r' x -> hidden x) /\ erase r' = erase r)
+                 (collect nResp v') (if keep_state then block_map action_resps b else [])) /\
+    (forall c, forallb action_wf c = true ->
+       exists v', entry_checks deepcopy false keep_state c = OOk v' /\
+         (forall x, sec_at v' x -> hidden x) /\
+         Forall2 (fun r' r => (forall x, sec_at r' x -> hidden x) /\ erase r' = erase r)
+                 (collect nReq v') (flat_map action_reqs c) /\
+         Forall2 (fun r' r => (forall x, sec_at r' x -> hidden x) /\ erase r' = erase r)
+                 (collect nResp v') (if keep_state then flat_map action_resps c else [])) /\
+    (forall s, forallb action_wf s = true ->
+       match entry_seq deepcopy false keep_state s with
+       | None => s = []
+       | Some o =>
+           exists v', o = OOk v' /\
+             (forall x, sec_at v' x -> hidden x) /\
+             Forall2 (fun r' r => (forall x, sec_at r' x -> hidden x) /\ erase r' = erase r)
+                     (collect nReq v') (flat_map action_reqs s) /\
+             Forall2 (fun r' r => (forall x, sec_at r' x -> hidden x) /\ erase r' = erase r)
+                     (collect nResp v') (if keep_state then flat_map action_resps s else [])
+       end) /\
+    (forall a, action_wf a = true ->
+       exists v', entry_action deepcopy false keep_state a = OOk v' /\
+         (forall x, sec_at v' x -> hidden x) /\
+         Forall2 (fun r' r => (forall x, sec_at r' x -> hidden x) /\ erase r' = erase r)
+                 (collect nReq v') (action_reqs a) /\
+         Forall2 (fun r' r => (forall x, sec_at r' x -> hidden x) /\ erase r' = erase r)
+                 (collect nResp v') (if keep_state then action_resps a else [])).
+Proof.
+  intros dc Hdc ks. repeat split.
+  - intros p W. exact (entry_plan_surfaces dc Hdc ks p W).
+  - intros b W. exact (entry_block_surfaces dc Hdc ks b W).
+  - intros c W. exact (entry_checks_surfaces dc Hdc ks c W).
+  - intros s W. exact (entry_seq_surfaces dc Hdc ks s W).
+  - intros a W. exact (entry_action_surfaces dc Hdc ks a W).
+Qed.
+Print Assumptions c17_clone_surfaces.
+
+(* reports.Render: Secure runs on the plan itself, the templates get the plan, every sequence and every action of the
+   scrubbed plan; none of these inputs exposes a secure-tagged value that is not hidden; Render does not panic. *)
+Theorem c17_report : forall p : plan_sk, plan_wf p = true ->
+  exists v', secure (ptr_to (plan_gv p)) = OOk v' /\
+             render p = Ok (template_inputs v') /\
+             forall i, In i (template_inputs v') -> forall x, sec_at i x -> hidden x.
+Proof. exact render_hides. Qed.
+Print Assumptions c17_report.
+
+(* The registry: findSecrets returns an error exactly when some field - exported or not - reachable through struct
+   fields and pointers (any depth; the walk does NOT enter slices, maps, arrays, and an interface has no static fields)
+   has a secret-looking name and neither the secure nor the ignore tag; Register accepts exactly when neither the
+   request nor the response type has such a field. *)
+Theorem c17_registry :
+  (forall t : ty, find_secrets t <> None <-> exists m, reach t m /\ offending m = true) /\
+  (forall req resp : ty, register_ok req resp = true <->
+                         (forall m, reach req m \/ reach resp m -> offending m = false)).
+Proof. split; [exact find_secrets_error_iff | exact register_ok_iff]. Qed.
+Print Assumptions c17_registry.
